@@ -181,6 +181,347 @@ Proof.
 Qed.
 
 (* ======================================================================================== *)
+(* A'. String::from_utf8_lossy and the Unicode-aware trim                                    *)
+(* ======================================================================================== *)
+Definition all_ascii (s : bytes) : bool := forallb (fun b => b <? 128) s.
+
+Lemma is_space_ascii b : is_space b = true -> (b <? 128) = true.
+Proof.
+  unfold is_space. intros H. apply N.ltb_lt. apply orb_true_iff in H as [H|H].
+  - apply N.eqb_eq in H. lia.
+  - apply andb_true_iff in H as [_ H]. apply N.leb_le in H. lia.
+Qed.
+
+Lemma all_space_ascii w : all_space w = true -> all_ascii w = true.
+Proof.
+  unfold all_space, all_ascii. rewrite !forallb_forall. intros H x Hx. apply is_space_ascii. auto.
+Qed.
+
+(* facts about one ASCII byte in the tables *)
+Lemma ascii_not_cont x : (x <? 128) = true -> is_cont x = false.
+Proof. intros H. apply N.ltb_lt in H. unfold is_cont. apply andb_false_iff. left. apply N.leb_gt. lia. Qed.
+
+Lemma ascii_not_ok3 b x : (x <? 128) = true -> ok3 b x = false.
+Proof.
+  intros H. pose proof (ascii_not_cont x H) as Hc. apply N.ltb_lt in H. unfold ok3. rewrite Hc, !andb_false_r.
+  assert (E1 : (160 <=? x) = false) by (apply N.leb_gt; lia).
+  assert (E2 : (128 <=? x) = false) by (apply N.leb_gt; lia).
+  rewrite E1, E2, !andb_false_r. reflexivity.
+Qed.
+
+Lemma ascii_not_ok4 b x : (x <? 128) = true -> ok4 b x = false.
+Proof.
+  intros H. pose proof (ascii_not_cont x H) as Hc. apply N.ltb_lt in H. unfold ok4. rewrite Hc, !andb_false_r.
+  assert (E1 : (144 <=? x) = false) by (apply N.leb_gt; lia).
+  assert (E2 : (128 <=? x) = false) by (apply N.leb_gt; lia).
+  rewrite E1, E2, !andb_false_r. reflexivity.
+Qed.
+
+(* the remaining input of a step is a suffix of the rest: never longer *)
+Lemma utf8_step_rest b t : (length (snd (utf8_step b t)) <= length t)%nat.
+Proof.
+  unfold utf8_step.
+  destruct (b <? 128); [cbn; lia|].
+  destruct (lead2 b).
+  { destruct t as [|c1 t1]; [cbn; lia|]. destruct (is_cont c1); cbn; lia. }
+  destruct (lead3 b).
+  { destruct t as [|c1 t1]; [cbn; lia|]. destruct (ok3 b c1); [|cbn; lia].
+    destruct t1 as [|c2 t2]; [cbn; lia|]. destruct (is_cont c2); cbn; lia. }
+  destruct (lead4 b); [|cbn; lia].
+  destruct t as [|c1 t1]; [cbn; lia|]. destruct (ok4 b c1); [|cbn; lia].
+  destruct t1 as [|c2 t2]; [cbn; lia|]. destruct (is_cont c2); [|cbn; lia].
+  destruct t2 as [|c3 t3]; [cbn; lia|]. destruct (is_cont c3); cbn; lia.
+Qed.
+
+(* a valid step emits exactly the bytes it consumes *)
+Lemma utf8_step_valid b t o r : utf8_step b t = (true, o, r) -> o ++ r = b :: t.
+Proof.
+  unfold utf8_step.
+  destruct (b <? 128); [intros [= <- <-]; reflexivity|].
+  destruct (lead2 b).
+  { destruct t as [|c1 t1]; [discriminate|]. destruct (is_cont c1); [|discriminate]. intros [= <- <-]. reflexivity. }
+  destruct (lead3 b).
+  { destruct t as [|c1 t1]; [discriminate|]. destruct (ok3 b c1); [|discriminate].
+    destruct t1 as [|c2 t2]; [discriminate|]. destruct (is_cont c2); [|discriminate]. intros [= <- <-]. reflexivity. }
+  destruct (lead4 b); [|discriminate].
+  destruct t as [|c1 t1]; [discriminate|]. destruct (ok4 b c1); [|discriminate].
+  destruct t1 as [|c2 t2]; [discriminate|]. destruct (is_cont c2); [|discriminate].
+  destruct t2 as [|c3 t3]; [discriminate|]. destruct (is_cont c3); [|discriminate]. intros [= <- <-]. reflexivity.
+Qed.
+
+(* what a step emits comes from its input or is U+FFFD; what remains comes from its input *)
+Lemma utf8_step_in b t ok o r x :
+  utf8_step b t = (ok, o, r) -> (In x o -> x = b \/ In x t \/ In x REPL) /\ (In x r -> In x t).
+Proof.
+  unfold utf8_step.
+  destruct (b <? 128); [intros [= <- <- <-]; cbn; intuition|].
+  destruct (lead2 b).
+  { destruct t as [|c1 t1]; [intros [= <- <- <-]; cbn; intuition|].
+    destruct (is_cont c1); intros [= <- <- <-]; cbn; intuition. }
+  destruct (lead3 b).
+  { destruct t as [|c1 t1]; [intros [= <- <- <-]; cbn; intuition|].
+    destruct (ok3 b c1); [|intros [= <- <- <-]; cbn; intuition].
+    destruct t1 as [|c2 t2]; [intros [= <- <- <-]; cbn; intuition|].
+    destruct (is_cont c2); intros [= <- <- <-]; cbn; intuition. }
+  destruct (lead4 b); [|intros [= <- <- <-]; cbn; intuition].
+  destruct t as [|c1 t1]; [intros [= <- <- <-]; cbn; intuition|].
+  destruct (ok4 b c1); [|intros [= <- <- <-]; cbn; intuition].
+  destruct t1 as [|c2 t2]; [intros [= <- <- <-]; cbn; intuition|].
+  destruct (is_cont c2); [|intros [= <- <- <-]; cbn; intuition].
+  destruct t2 as [|c3 t3]; [intros [= <- <- <-]; cbn; intuition|].
+  destruct (is_cont c3); intros [= <- <- <-]; cbn; intuition.
+Qed.
+
+(* ASCII bytes after the input never complete or repair a sequence *)
+Lemma utf8_step_app_ascii b t w :
+  all_ascii w = true ->
+  utf8_step b (t ++ w) = let '(ok, o, r) := utf8_step b t in (ok, o, r ++ w).
+Proof.
+  intros Hw. unfold utf8_step.
+  assert (Hc : forall x w', w = x :: w' -> is_cont x = false /\ ok3 b x = false /\ ok4 b x = false).
+  { intros x w' ->. cbn in Hw. apply andb_true_iff in Hw as [Hx _].
+    auto using ascii_not_cont, ascii_not_ok3, ascii_not_ok4. }
+  destruct (b <? 128); [reflexivity|].
+  destruct (lead2 b).
+  { destruct t as [|c1 t1]; cbn [app].
+    - destruct w as [|x w']; [reflexivity|]. destruct (Hc x w' eq_refl) as (-> & _ & _). reflexivity.
+    - destruct (is_cont c1); reflexivity. }
+  destruct (lead3 b).
+  { destruct t as [|c1 t1]; cbn [app].
+    - destruct w as [|x w']; [reflexivity|]. destruct (Hc x w' eq_refl) as (_ & -> & _). reflexivity.
+    - destruct (ok3 b c1); [|reflexivity]. destruct t1 as [|c2 t2]; cbn [app].
+      + destruct w as [|x w']; [reflexivity|]. destruct (Hc x w' eq_refl) as (-> & _ & _). reflexivity.
+      + destruct (is_cont c2); reflexivity. }
+  destruct (lead4 b); [|reflexivity].
+  destruct t as [|c1 t1]; cbn [app].
+  - destruct w as [|x w']; [reflexivity|]. destruct (Hc x w' eq_refl) as (_ & _ & ->). reflexivity.
+  - destruct (ok4 b c1); [|reflexivity]. destruct t1 as [|c2 t2]; cbn [app].
+    + destruct w as [|x w']; [reflexivity|]. destruct (Hc x w' eq_refl) as (-> & _ & _). reflexivity.
+    + destruct (is_cont c2); [|reflexivity]. destruct t2 as [|c3 t3]; cbn [app].
+      * destruct w as [|x w']; [reflexivity|]. destruct (Hc x w' eq_refl) as (-> & _ & _). reflexivity.
+      * destruct (is_cont c3); reflexivity.
+Qed.
+
+(* enough fuel is enough *)
+Lemma lossy_fuel_enough n : forall m s,
+  (length s <= n)%nat -> (length s <= m)%nat -> utf8_lossy_fuel n s = utf8_lossy_fuel m s.
+Proof.
+  induction n as [|n IH]; intros m s Hn Hm.
+  - destruct s; [|cbn in Hn; lia]. destruct m; reflexivity.
+  - destruct s as [|b t]; [destruct m; reflexivity|].
+    destruct m as [|m]; [cbn in Hm; lia|]. cbn [utf8_lossy_fuel].
+    pose proof (utf8_step_rest b t) as Hr. destruct (utf8_step b t) as [[ok o] r]. cbn [snd] in Hr.
+    f_equal. cbn [length] in Hn, Hm. apply IH; lia.
+Qed.
+
+Lemma valid_fuel_enough n : forall m s,
+  (length s <= n)%nat -> (length s <= m)%nat -> utf8_valid_fuel n s = utf8_valid_fuel m s.
+Proof.
+  induction n as [|n IH]; intros m s Hn Hm.
+  - destruct s; [|cbn in Hn; lia]. destruct m; reflexivity.
+  - destruct s as [|b t]; [destruct m; reflexivity|].
+    destruct m as [|m]; [cbn in Hm; lia|]. cbn [utf8_valid_fuel].
+    pose proof (utf8_step_rest b t) as Hr. destruct (utf8_step b t) as [[ok o] r]. cbn [snd] in Hr.
+    f_equal. cbn [length] in Hn, Hm. apply IH; lia.
+Qed.
+
+Lemma utf8_lossy_cons b t :
+  utf8_lossy (b :: t) = let '(_, o, r) := utf8_step b t in o ++ utf8_lossy r.
+Proof.
+  unfold utf8_lossy. cbn [length utf8_lossy_fuel].
+  pose proof (utf8_step_rest b t) as Hr. destruct (utf8_step b t) as [[ok o] r]. cbn [snd] in Hr.
+  f_equal. apply lossy_fuel_enough; lia.
+Qed.
+
+Lemma utf8_valid_cons b t :
+  utf8_valid (b :: t) = let '(ok, _, r) := utf8_step b t in ok && utf8_valid r.
+Proof.
+  unfold utf8_valid. cbn [length utf8_valid_fuel].
+  pose proof (utf8_step_rest b t) as Hr. destruct (utf8_step b t) as [[ok o] r]. cbn [snd] in Hr.
+  f_equal. apply valid_fuel_enough; lia.
+Qed.
+
+(* strong induction on the length, in the shape the step lemmas need *)
+Lemma bytes_len_ind (P : list N -> Prop) :
+  (forall s : list N, (forall s' : list N, (length s' < length s)%nat -> P s') -> P s) -> forall s : list N, P s.
+Proof.
+  intros H s. remember (length s) as n eqn:E. revert s E.
+  induction n as [n IH] using lt_wf_ind. intros s ->. apply H. intros s' Hs'. eapply IH; eauto.
+Qed.
+
+(* valid UTF-8 is kept byte for byte *)
+Lemma utf8_lossy_valid s : utf8_valid s = true -> utf8_lossy s = s.
+Proof.
+  induction s as [s IH] using bytes_len_ind. destruct s as [|b t]; [reflexivity|].
+  rewrite utf8_valid_cons, utf8_lossy_cons.
+  pose proof (utf8_step_rest b t) as Hr. destruct (utf8_step b t) as [[ok o] r] eqn:E. cbn [snd] in Hr.
+  intros H. apply andb_true_iff in H as [-> Hv]. rewrite IH; [|cbn; lia|assumption].
+  eapply utf8_step_valid; eassumption.
+Qed.
+
+Lemma in_utf8_lossy x s : In x (utf8_lossy s) -> In x s \/ In x REPL.
+Proof.
+  induction s as [s IH] using bytes_len_ind. destruct s as [|b t]; [cbn; auto|].
+  rewrite utf8_lossy_cons.
+  pose proof (utf8_step_rest b t) as Hr. destruct (utf8_step b t) as [[ok o] r] eqn:E. cbn [snd] in Hr.
+  destruct (utf8_step_in b t ok o r x E) as [Ho Hr'].
+  intros H. apply in_app_or in H as [H|H].
+  - destruct (Ho H) as [->|[H'|H']]; [left; left; reflexivity|left; right; assumption|right; assumption].
+  - destruct (IH r ltac:(cbn; lia) H) as [H'|H']; [left; right; auto|right; assumption].
+Qed.
+
+Lemma utf8_lossy_ascii w : all_ascii w = true -> utf8_lossy w = w.
+Proof.
+  induction w as [|x w IH]; [reflexivity|]. cbn [all_ascii forallb]. intros H.
+  apply andb_true_iff in H as [Hx Hw]. rewrite utf8_lossy_cons. unfold utf8_step. rewrite Hx.
+  cbn [app]. f_equal. apply IH. assumption.
+Qed.
+
+Lemma utf8_lossy_ascii_prefix w s : all_ascii w = true -> utf8_lossy (w ++ s) = w ++ utf8_lossy s.
+Proof.
+  induction w as [|x w IH]; [reflexivity|]. cbn [all_ascii forallb app]. intros H.
+  apply andb_true_iff in H as [Hx Hw]. rewrite utf8_lossy_cons. unfold utf8_step. rewrite Hx.
+  cbn [app]. f_equal. apply IH. assumption.
+Qed.
+
+Lemma utf8_lossy_ascii_suffix s w : all_ascii w = true -> utf8_lossy (s ++ w) = utf8_lossy s ++ w.
+Proof.
+  intros Hw. induction s as [s IH] using bytes_len_ind. destruct s as [|b t].
+  - cbn [app]. rewrite utf8_lossy_ascii by assumption. reflexivity.
+  - cbn [app]. rewrite !utf8_lossy_cons, utf8_step_app_ascii by assumption.
+    pose proof (utf8_step_rest b t) as Hr. destruct (utf8_step b t) as [[ok o] r]. cbn [snd] in Hr.
+    rewrite IH by (cbn; lia). apply app_assoc.
+Qed.
+(* ---- str::trim on the decoded text ---- *)
+Lemma space_not_ws2 a x : is_space x = true -> ws2 a x = false.
+Proof.
+  intros H. apply is_space_ascii in H. apply N.ltb_lt in H. unfold ws2.
+  assert (E1 : (x =? 133) = false) by (apply N.eqb_neq; lia).
+  assert (E2 : (x =? 160) = false) by (apply N.eqb_neq; lia).
+  rewrite E1, E2. apply andb_false_r.
+Qed.
+
+Lemma space_not_ws3_mid a x y : is_space x = true -> ws3 a x y = false.
+Proof.
+  intros H. apply is_space_ascii in H. apply N.ltb_lt in H. unfold ws3.
+  assert (E1 : (x =? 154) = false) by (apply N.eqb_neq; lia).
+  assert (E2 : (x =? 128) = false) by (apply N.eqb_neq; lia).
+  assert (E3 : (x =? 129) = false) by (apply N.eqb_neq; lia).
+  rewrite E1, E2, E3, !andb_false_r. reflexivity.
+Qed.
+
+Lemma space_not_ws3_last a b x : is_space x = true -> ws3 a b x = false.
+Proof.
+  intros H. apply is_space_ascii in H. apply N.ltb_lt in H. unfold ws3.
+  assert (E1 : (x =? 128) = false) by (apply N.eqb_neq; lia).
+  assert (E2 : (128 <=? x) = false) by (apply N.leb_gt; lia).
+  assert (E3 : (x =? 168) = false) by (apply N.eqb_neq; lia).
+  assert (E4 : (x =? 169) = false) by (apply N.eqb_neq; lia).
+  assert (E5 : (x =? 175) = false) by (apply N.eqb_neq; lia).
+  assert (E6 : (x =? 159) = false) by (apply N.eqb_neq; lia).
+  rewrite E1, E2, E3, E4, E5, E6. cbn [andb orb]. rewrite !andb_false_r. reflexivity.
+Qed.
+
+Lemma in_trim_start_u x s : In x (trim_start_u s) -> In x s.
+Proof.
+  induction s as [s IH] using bytes_len_ind. destruct s as [|a t]; [auto|].
+  cbn [trim_start_u]. destruct (is_space a).
+  { intros H. right. apply IH; [cbn; lia|assumption]. }
+  destruct t as [|b t1]; [auto|]. destruct (ws2 a b).
+  { intros H. right. right. apply IH; [cbn; lia|assumption]. }
+  destruct t1 as [|c t2]; [auto|]. destruct (ws3 a b c); [|auto].
+  intros H. right. right. right. apply IH; [cbn; lia|assumption].
+Qed.
+
+Lemma in_trim_start_ur x s : In x (trim_start_ur s) -> In x s.
+Proof.
+  induction s as [s IH] using bytes_len_ind. destruct s as [|a t]; [auto|].
+  cbn [trim_start_ur]. destruct (is_space a).
+  { intros H. right. apply IH; [cbn; lia|assumption]. }
+  destruct t as [|b t1]; [auto|]. destruct (ws2 b a).
+  { intros H. right. right. apply IH; [cbn; lia|assumption]. }
+  destruct t1 as [|c t2]; [auto|]. destruct (ws3 c b a); [|auto].
+  intros H. right. right. right. apply IH; [cbn; lia|assumption].
+Qed.
+
+Lemma in_trim_u x s : In x (trim_u s) -> In x s.
+Proof.
+  unfold trim_u, trim_end_u. intros H. apply in_rev in H. apply in_trim_start_ur in H.
+  apply in_rev in H. apply in_trim_start_u in H. assumption.
+Qed.
+
+Lemma trim_start_u_all_space w s : all_space w = true -> trim_start_u (w ++ s) = trim_start_u s.
+Proof.
+  induction w as [|x w IH]; [reflexivity|]. cbn [all_space forallb app]. intros H.
+  apply andb_true_iff in H as [Hx Hw]. cbn [trim_start_u]. rewrite Hx. auto.
+Qed.
+
+Lemma trim_start_ur_all_space w s : all_space w = true -> trim_start_ur (w ++ s) = trim_start_ur s.
+Proof.
+  induction w as [|x w IH]; [reflexivity|]. cbn [all_space forallb app]. intros H.
+  apply andb_true_iff in H as [Hx Hw]. cbn [trim_start_ur]. rewrite Hx. auto.
+Qed.
+
+Lemma trim_start_u_spaces w : all_space w = true -> trim_start_u w = [].
+Proof. intros H. rewrite <- (app_nil_r w). rewrite trim_start_u_all_space by assumption. reflexivity. Qed.
+
+Lemma trim_start_u_app_space s w :
+  all_space w = true ->
+  trim_start_u (s ++ w) = match trim_start_u s with [] => [] | r => r ++ w end.
+Proof.
+  intros Hw. induction s as [s IH] using bytes_len_ind. destruct s as [|a t].
+  { cbn [app trim_start_u]. apply trim_start_u_spaces. assumption. }
+  cbn [app trim_start_u]. destruct (is_space a) eqn:Ea.
+  { apply IH. cbn; lia. }
+  destruct t as [|b t1].
+  { cbn [app]. destruct w as [|x w']; [reflexivity|].
+    cbn [all_space forallb] in Hw. apply andb_true_iff in Hw as [Hx Hw'].
+    rewrite (space_not_ws2 a x Hx). destruct w' as [|y w'']; [reflexivity|].
+    rewrite (space_not_ws3_mid a x y Hx). reflexivity. }
+  cbn [app]. destruct (ws2 a b).
+  { apply IH. cbn; lia. }
+  destruct t1 as [|c t2].
+  { cbn [app]. destruct w as [|x w']; [reflexivity|].
+    cbn [all_space forallb] in Hw. apply andb_true_iff in Hw as [Hx Hw'].
+    rewrite (space_not_ws3_last a b x Hx). reflexivity. }
+  cbn [app]. destruct (ws3 a b c); [|reflexivity].
+  apply IH. cbn; lia.
+Qed.
+
+Lemma trim_end_u_all_space s w : all_space w = true -> trim_end_u (s ++ w) = trim_end_u s.
+Proof.
+  intros H. unfold trim_end_u. rewrite rev_app_distr.
+  rewrite trim_start_ur_all_space; [reflexivity|rewrite all_space_rev; assumption].
+Qed.
+
+Lemma trim_u_pad w1 w2 s :
+  all_space w1 = true -> all_space w2 = true -> trim_u (w1 ++ s ++ w2) = trim_u s.
+Proof.
+  intros H1 H2. unfold trim_u. rewrite trim_start_u_all_space by assumption.
+  rewrite trim_start_u_app_space by assumption.
+  destruct (trim_start_u s) eqn:E; [reflexivity|]. apply trim_end_u_all_space. assumption.
+Qed.
+
+(* what is signed of a header value *)
+Lemma hval_pad w1 w2 v :
+  all_space w1 = true -> all_space w2 = true -> hval (w1 ++ v ++ w2) = hval v.
+Proof.
+  intros H1 H2. unfold hval.
+  rewrite utf8_lossy_ascii_prefix by (apply all_space_ascii; assumption).
+  rewrite utf8_lossy_ascii_suffix by (apply all_space_ascii; assumption).
+  apply trim_u_pad; assumption.
+Qed.
+
+Lemma hval_valid v : utf8_valid v = true -> hval v = trim_u v.
+Proof. intros H. unfold hval. rewrite utf8_lossy_valid by assumption. reflexivity. Qed.
+
+Lemma lf_in_hval v : In 10 (hval v) -> In 10 v.
+Proof.
+  unfold hval. intros H. apply in_trim_u in H. apply in_utf8_lossy in H as [H|H]; [assumption|].
+  cbn in H. repeat (destruct H as [H|H]; [discriminate|]). contradiction.
+Qed.
+
+(* ======================================================================================== *)
 (* B. association lists standing for HashMap<String, V>                                      *)
 (* ======================================================================================== *)
 Section AListFacts.
@@ -568,16 +909,16 @@ Definition hkeep (k : bytes) : bool := negb (is_auth_key k).
 
 Lemma canon_headers_unfold hs :
   canon_headers hs =
-  concat (map (fun e => if hkeep (fst e) then fst e ++ [58] ++ trim (snd e) ++ LF else [])
+  concat (map (fun e => if hkeep (fst e) then fst e ++ [58] ++ hval (snd e) ++ LF else [])
               (sorted_bindings (header_map hs))).
 Proof.
   unfold canon_headers. f_equal. apply map_ext. intros e. unfold render_header, hkeep.
   destruct (is_auth_key (fst e)); reflexivity.
 Qed.
 
-(* the signed view of a header list as a function: name -> trimmed last value *)
+(* the signed view of a header list as a function: name -> signed text of the last value *)
 Definition hsem (k : bytes) (hs : headers) : option bytes :=
-  option_map trim (lastv k (map header_entry hs)).
+  option_map hval (lastv k (map header_entry hs)).
 
 (* MAIN: the canonical header string is determined by hsem on the non-authorization names *)
 Lemma canon_headers_ext hs hs' :
@@ -586,8 +927,8 @@ Lemma canon_headers_ext hs hs' :
 Proof.
   intros H. rewrite !canon_headers_unfold.
   apply (render_sorted_ext (header_map hs) (header_map hs') hkeep
-           (fun e => fst e ++ [58] ++ trim (snd e) ++ LF)
-           (fun e => fst e ++ [58] ++ trim (snd e) ++ LF)).
+           (fun e => fst e ++ [58] ++ hval (snd e) ++ LF)
+           (fun e => fst e ++ [58] ++ hval (snd e) ++ LF)).
   - apply nodup_of_pairs.
   - apply nodup_of_pairs.
   - intros k Hk. unfold header_map. rewrite !alookup_of_pairs.
@@ -598,7 +939,7 @@ Qed.
 
 (* header-name case and surrounding blanks: entry-wise equal signed views *)
 Lemma hsem_forall2 k hs hs' :
-  Forall2 (fun h h' => lower (fst h) = lower (fst h') /\ trim (snd h) = trim (snd h')) hs hs' ->
+  Forall2 (fun h h' => lower (fst h) = lower (fst h') /\ hval (snd h) = hval (snd h')) hs hs' ->
   hsem k hs = hsem k hs'.
 Proof.
   unfold hsem. induction 1 as [|h h' hs hs' [E1 E2] _ IH]; [reflexivity|].
@@ -609,7 +950,7 @@ Proof.
 Qed.
 
 Lemma canon_headers_case_and_padding hs hs' :
-  Forall2 (fun h h' => lower (fst h) = lower (fst h') /\ trim (snd h) = trim (snd h')) hs hs' ->
+  Forall2 (fun h h' => lower (fst h) = lower (fst h') /\ hval (snd h) = hval (snd h')) hs hs' ->
   canon_headers hs = canon_headers hs'.
 Proof. intros H. apply canon_headers_ext. intros k _. apply hsem_forall2. assumption. Qed.
 
@@ -954,29 +1295,34 @@ Proof.
     f_equal. apply IH; assumption.
 Qed.
 
-Lemma wf_header_spec h : wf_header h = true -> ~ In 58 (lower (fst h)) /\ ~ In 10 (trim (snd h)).
+Lemma wf_header_spec h : wf_header h = true -> ~ In 58 (lower (fst h)) /\ ~ In 10 (hval (snd h)).
 Proof.
   unfold wf_header. intros H. apply andb_true_iff in H as [H1 H2].
   apply negb_true_iff in H1, H2. split.
   - intros Hin. apply in_lower in Hin; [|reflexivity].
     assert (existsb (N.eqb 58) (fst h) = true); [|congruence].
     apply existsb_exists. exists 58. split; [assumption|reflexivity].
-  - intros Hin. apply in_trim in Hin.
+  - intros Hin. apply lf_in_hval in Hin.
     assert (existsb (N.eqb 10) (snd h) = true); [|congruence].
     apply existsb_exists. exists 10. split; [assumption|reflexivity].
 Qed.
+
+(* what is signed of a header list: (lower name, signed text of the value) of every header
+   except the authorization header *)
+Definition hsigned (h : bytes * bytes) : bytes * bytes := (lower (fst h), hval (snd h)).
+Definition hsigned_multiset (hs : headers) : list (bytes * bytes) := map hsigned (filter sig_header hs).
 
 (* with no repeated signed name, the canonical string is the rendering of a permutation of
    the signed multiset *)
 Lemma canon_headers_as_render hs :
   repeated_header_name hs = false ->
-  exists L, Permutation L (hnorm_multiset hs) /\ canon_headers hs = concat (map render_h L).
+  exists L, Permutation L (hsigned_multiset hs) /\ canon_headers hs = concat (map render_h L).
 Proof.
   intros Hr. rewrite <- canon_headers_filter_sig.
   set (hs0 := filter sig_header hs).
-  exists (map (fun e => (fst e, trim (snd e))) (sorted_bindings (header_map hs0))). split.
-  - unfold hnorm_multiset. fold hs0.
-    replace (map hnorm hs0) with (map (fun e : bytes * bytes => (fst e, trim (snd e))) (map header_entry hs0))
+  exists (map (fun e => (fst e, hval (snd e))) (sorted_bindings (header_map hs0))). split.
+  - unfold hsigned_multiset. fold hs0.
+    replace (map hsigned hs0) with (map (fun e : bytes * bytes => (fst e, hval (snd e))) (map header_entry hs0))
       by (rewrite map_map; reflexivity).
     apply Permutation_map. unfold header_map. apply sorted_bindings_perm.
     rewrite map_entry_keys. apply has_dup_false. exact Hr.
@@ -989,25 +1335,47 @@ Proof.
     apply negb_true_iff in Hs. rewrite Hs. reflexivity.
 Qed.
 
-Lemma canon_headers_covers hs hs' :
+(* the canonical header string determines WHAT IS SIGNED of every header *)
+Lemma canon_headers_covers_signed hs hs' :
   wf_headers hs = true -> wf_headers hs' = true ->
   repeated_header_name hs = false -> repeated_header_name hs' = false ->
   canon_headers hs = canon_headers hs' ->
-  Permutation (hnorm_multiset hs) (hnorm_multiset hs').
+  Permutation (hsigned_multiset hs) (hsigned_multiset hs').
 Proof.
   intros Hw Hw' Hr Hr' E.
   destruct (canon_headers_as_render hs Hr) as (L & P & EL).
   destruct (canon_headers_as_render hs' Hr') as (L' & P' & EL').
   rewrite EL, EL' in E.
-  assert (W : forall hs L, wf_headers hs = true -> Permutation L (hnorm_multiset hs) ->
+  assert (W : forall hs L, wf_headers hs = true -> Permutation L (hsigned_multiset hs) ->
               Forall (fun e => ~ In 58 (fst e) /\ ~ In 10 (snd e)) L).
   { clear. intros hs L Hw P. rewrite Forall_forall. intros e He.
-    eapply Permutation_in in He; [|exact P]. unfold hnorm_multiset in He.
+    eapply Permutation_in in He; [|exact P]. unfold hsigned_multiset in He.
     apply in_map_iff in He as (h & <- & Hh). apply filter_In in Hh as [Hh _].
-    unfold wf_headers in Hw. rewrite forallb_forall in Hw. unfold hnorm. cbn [fst snd].
+    unfold wf_headers in Hw. rewrite forallb_forall in Hw. unfold hsigned. cbn [fst snd].
     apply wf_header_spec. auto. }
   apply render_h_inj_concat in E; [|exact (W _ _ Hw P)|exact (W _ _ Hw' P')].
   subst L'. eapply Permutation_trans; [apply Permutation_sym; exact P|exact P'].
+Qed.
+
+(* when every signed value is valid UTF-8, what is signed is the value as received, trimmed *)
+Lemma hsigned_is_hnorm hs : header_value_not_utf8 hs = false -> hsigned_multiset hs = hnorm_multiset hs.
+Proof.
+  unfold header_value_not_utf8, hsigned_multiset, hnorm_multiset. intros H.
+  apply map_ext_in. intros h Hh. unfold hsigned, hnorm. f_equal. apply hval_valid.
+  destruct (utf8_valid (snd h)) eqn:E; [reflexivity|].
+  assert (existsb (fun h => negb (utf8_valid (snd h))) (filter sig_header hs) = true); [|congruence].
+  apply existsb_exists. exists h. rewrite E. auto.
+Qed.
+
+Lemma canon_headers_covers hs hs' :
+  wf_headers hs = true -> wf_headers hs' = true ->
+  repeated_header_name hs = false -> repeated_header_name hs' = false ->
+  header_value_not_utf8 hs = false -> header_value_not_utf8 hs' = false ->
+  canon_headers hs = canon_headers hs' ->
+  Permutation (hnorm_multiset hs) (hnorm_multiset hs').
+Proof.
+  intros Hw Hw' Hr Hr' Hu Hu' E. rewrite <- (hsigned_is_hnorm hs Hu), <- (hsigned_is_hnorm hs' Hu').
+  apply canon_headers_covers_signed; assumption.
 Qed.
 
 (* ======================================================================================== *)
@@ -1050,10 +1418,22 @@ Qed.
 Lemma covers_headers_partial m b hs hs' u :
   wf_headers hs = true -> wf_headers hs' = true ->
   repeated_header_name hs = false -> repeated_header_name hs' = false ->
+  header_value_not_utf8 hs = false -> header_value_not_utf8 hs' = false ->
   as_sig_input m b hs u = as_sig_input m b hs' u ->
   Permutation (hnorm_multiset hs) (hnorm_multiset hs').
 Proof.
-  intros Hw Hw' Hr Hr' E. apply canon_headers_covers; try assumption.
+  intros Hw Hw' Hr Hr' Hu Hu' E. apply canon_headers_covers; try assumption.
+  unfold as_sig_input in E. cbv zeta in E. do 4 apply app_inv_head in E.
+  apply app_inv_tail in E. assumption.
+Qed.
+
+Lemma covers_signed_headers m b hs hs' u :
+  wf_headers hs = true -> wf_headers hs' = true ->
+  repeated_header_name hs = false -> repeated_header_name hs' = false ->
+  as_sig_input m b hs u = as_sig_input m b hs' u ->
+  Permutation (hsigned_multiset hs) (hsigned_multiset hs').
+Proof.
+  intros Hw Hw' Hr Hr' E. apply canon_headers_covers_signed; try assumption.
   unfold as_sig_input in E. cbv zeta in E. do 4 apply app_inv_head in E.
   apply app_inv_tail in E. assumption.
 Qed.
@@ -1116,6 +1496,19 @@ Lemma covers_headers_refuted :
 Proof.
   exists hx1, [(B"x", B"2")]. repeat split; try (vm_compute; reflexivity).
   intros P. apply Permutation_length in P. vm_compute in P. discriminate.
+Qed.
+
+(* two different invalid byte strings are signed as the same U+FFFD (known finding F3c) *)
+Lemma covers_headers_refuted_not_utf8 :
+  exists hs hs',
+    KnownClass_C04_header_value_not_utf8 hs = true /\
+    KnownClass_C04_repeated_header_name hs = false /\ KnownClass_C04_repeated_header_name hs' = false /\
+    wf_headers hs = true /\ wf_headers hs' = true /\
+    canon_headers hs = canon_headers hs' /\
+    ~ Permutation (hnorm_multiset hs) (hnorm_multiset hs').
+Proof.
+  exists [(B"x", [128])], [(B"x", [129])]. repeat split; try (vm_compute; reflexivity).
+  intros P. vm_compute in P. apply Permutation_length_1_inv in P. discriminate.
 Qed.
 
 Lemma header_order_refuted :
@@ -1287,6 +1680,23 @@ Proof.
   - destruct kg; [|reflexivity]. rewrite Hk. reflexivity.
 Qed.
 
+(* the handler's current form: guid and value read as one pair (/repo a01dbe0) *)
+Lemma signed_is_sent_pair key req out :
+  sign_and_forward_pair mac key req = Forwarded out ->
+  request_sig_input out = request_sig_input req /\
+  r_method out = r_method req /\ r_uri out = r_uri req /\ r_body out = r_body req.
+Proof.
+  unfold sign_and_forward_pair. destruct key as [[guid value]|]; [apply signed_is_sent|].
+  intros [= <-]. auto.
+Qed.
+
+Lemma header_shape_pair guid key kb req out :
+  sign_and_forward_pair mac (Some (guid, key)) req = Forwarded out ->
+  hex_decode key = Some kb ->
+  hm_get_all auth_header (r_headers out) =
+  [auth_value guid (hex_encode (mac kb (request_sig_input out)))].
+Proof. unfold sign_and_forward_pair. apply header_shape. Qed.
+
 Lemma relay_exempt kv kg req :
   should_skip_sig (r_method req) (r_uri req) = true -> relay mac kv kg req = Forwarded req.
 Proof. unfold relay. intros ->. reflexivity. Qed.
@@ -1358,8 +1768,8 @@ End SignFacts.
 Definition padded (v v' : bytes) : Prop :=
   exists w1 w2, all_space w1 = true /\ all_space w2 = true /\ v' = w1 ++ v ++ w2.
 
-Lemma padded_trim v v' : padded v v' -> trim v = trim v'.
-Proof. intros (w1 & w2 & H1 & H2 & ->). symmetry. apply trim_pad; assumption. Qed.
+Lemma padded_hval v v' : padded v v' -> hval v = hval v'.
+Proof. intros (w1 & w2 & H1 & H2 & ->). symmetry. apply hval_pad; assumption. Qed.
 
 (* header names in any case, values with surrounding blanks and tabs *)
 Lemma canon_headers_recase_pad hs hs' :
@@ -1368,7 +1778,7 @@ Lemma canon_headers_recase_pad hs hs' :
 Proof.
   intros H. apply canon_headers_case_and_padding.
   induction H as [|h h' hs hs' [E P] _ IH]; constructor; [|assumption].
-  split; [assumption|apply padded_trim; assumption].
+  split; [assumption|apply padded_hval; assumption].
 Qed.
 
 Lemma sig_input_headers_invariant m b u hs hs' hs'' :
